@@ -176,6 +176,7 @@ pub fn master_seed() -> u64 {
 
 pub fn scenario_for(check: &dyn Check, master: u64, index: u64, tier: Tier) -> Scenario {
     let mut rng = Rng::new(run_seed(master, tag_of(check.id()), index));
+    rng.index = index;
     check.generate(&mut rng, index, tier)
 }
 
